@@ -227,7 +227,7 @@ def _descr(gi):
         if type(r) is StringRecognizer:
             kind, ln, rl = 0, len(r.value), 0
         elif type(r) is RegExRecognizer and t.keyword:
-            kind, ln, rl = 1, max(0, len(r._regex) - 4), len(r._regex)
+            kind, ln, rl = 1, len(r.name), len(r.name)
         else:
             kind, ln, rl = 2, 0, 0
         mark = 0 if t.finish is None else (2 if t.finish else 1)
